@@ -17,8 +17,8 @@ variable {α : Type*} [Field α] [LinearOrder α] [IsStrictOrderedRing α]
     filters (or absent when no system is registered) -/
 def Fresh (s : Est α) : Prop := s.A = s.sources.map (systemA s.dom s.filters)
 
-theorem fresh_init (filters : List (List α)) (dom : Dom α) (K : Adapt α) (b : List α) :
-    Fresh (Est.init filters dom K b) := by
+theorem fresh_init (filters : List (List α)) (dom : Dom α) (K : Adapt α) (b w : List α) :
+    Fresh (Est.init filters dom K b w) := by
   simp [Fresh, Est.init]
 
 /-- every registration call keeps the stored matrix fresh and never touches filters or their domain -/
@@ -45,7 +45,7 @@ theorem register_fresh (s s' : Est α) (op : RegOp α) (h : Fresh s) (hr : s.reg
     split at hr
     · simp at hr
     · simp only [Option.some.injEq] at hr; subst hr; simp [h]
-  | targets B =>
+  | targets B W =>
     simp only [Est.register] at hr
     split at hr
     · simp at hr
@@ -72,7 +72,7 @@ theorem run_fresh (ops : List (RegOp α)) : ∀ (s s' : Est α), Fresh s → s.r
 theorem answer_factors (s : Est α) (h : Fresh s) (q : Query α) : s.answer q = s.abs.answer q := by
   unfold Fresh at h
   cases s with
-  | mk filters dom K baseline sources A lb ub targets =>
+  | mk filters dom K baseline sources A lb ub targets w W =>
     simp only at h
     subst h
     rfl
@@ -113,9 +113,21 @@ theorem system_adaptation_replaces (s : Est α) (A : List (List α)) (hA : s.A =
       some { s.abs with K := .vec (adaptTo ab s.baseline (systemCapture A x)) } := by
   simp [Est.register, Est.abs, hA, newK]
 
-theorem targets_replaces (s : Est α) (A : List (List α)) (hA : s.A = some A) (B : List (List α)) :
-    (s.register (.targets B)).map Est.abs = some { s.abs with targets := some B } := by
+/-- `register_targets(B, W)` replaces the targets AND the fitting weights: the given `W`, or — when `W` is not given —
+    the constructor's weights `w`, whatever weights an earlier `register_targets` call had stored. -/
+theorem targets_replaces (s : Est α) (A : List (List α)) (hA : s.A = some A) (B : List (List α)) (W : Option (Weights α)) :
+    (s.register (.targets B W)).map Est.abs = some { s.abs with targets := some B, W := W.getD (.vec s.w) } := by
   simp [Est.register, Est.abs, hA]
+
+/-- weights of an earlier target registration never survive a later one (history: `targets B₁ W₁ ; targets B₂`) -/
+theorem targets_weights_not_sticky (s : Est α) (A : List (List α)) (hA : s.A = some A) (B1 B2 : List (List α)) (W1 : Weights α) :
+    ((s.register (.targets B1 (some W1))).bind (·.register (.targets B2 none))).map Est.abs
+      = (s.register (.targets B2 none)).map Est.abs := by
+  simp [Est.register, Est.abs, hA]
+
+/-- the constructor's weights are never changed by any registration call -/
+theorem register_keeps_w (s s' : Est α) (op : RegOp α) (hr : s.register op = some s') : s'.w = s.w := by
+  cases op <;> simp only [Est.register] at hr <;> (try split at hr) <;> simp_all <;> (subst hr; rfl)
 
 /-- registering the same adaptation twice is the same as registering it once (idempotent replacement) -/
 theorem adaptation_idempotent (s : Est α) (K K' : Adapt α) :
